@@ -130,6 +130,9 @@ def body(cfg):
             c = P.global_corners_voxels[i, j]
             lo_, hi_ = c[0], c[2]
             blk = a[int(lo_[0]) : int(hi_[0]), int(lo_[1]) : int(hi_[1])]
+            # all four advertised voxel corners: (lo,lo), (hi,lo), (hi,hi), (lo,hi) of the interior block
+            rect = [[g0[0], g0[1]], [g1[0], g0[1]], [g1[0], g1[1]], [g0[0], g1[1]]]
+            ok_int.append([[int(v) for v in c[kx]] for kx in range(4)] == rect)
             ok_int.append(S.and_(tuple(inner.shape) == tuple(blk.shape), S.eq(inner, blk) if tuple(inner.shape) == tuple(blk.shape) else False, [g0[0], g0[1], g1[0], g1[1]] == [int(lo_[0]), int(lo_[1]), int(hi_[0]), int(hi_[1])]))
     S.claim("interiors_tile_the_image_without_gaps_or_double_cover", bool((cover == 1).all()))
     S.claim("each_patch_is_the_subimage_of_its_roi", S.and_(ok_sub))
